@@ -4,6 +4,7 @@ import QcelVerif.Model.MolDict
 import QcelVerif.Model.ResultKwargs
 import QcelVerif.Model.Hash
 import QcelVerif.Gen.SchemaC09
+import QcelVerif.Gen.MolSchemaSrc
 import QcelVerif.Lib.Proto
 /-!
 Line-protocol driver for the C09 models.  One output line per input line.
@@ -17,6 +18,12 @@ Line-protocol driver for the C09 models.  One output line per input line.
                               -> `ok <input.ok> <input.uniq> <hasType of the value> <validate, exported schema> <emitted json>`
                               | `refused <input.ok> <input.uniq>` (a validator of the model refuses) | `bad-op` (unreadable keywords)
   toschema|<v>|<dflt>|<fg>|<molrec fields…>      -> the schema dictionary
+  srctoschema|<dtype>|<dflt>|<fg>|<np_out T/F>|<copy T/F>|<molrec fields…>
+                              the SOURCE-DERIVED voice: the generic evaluator of Model/MolSchemaAst.lean at the term
+                              Gen/MolSchemaSrc.lean holds (re-read from to_schema.py on this run)
+                              -> the schema dictionary as above + `|<geometry the caller's record holds afterwards>`
+                              | `err <kind>` | `src-stuck` | `src-untranslated`
+  srcfromschema|<name>|<version>|M/T/0|<moldict …>   the same for from_schema.py -> as `fromschema`
   fromschema|<name>|<version>|M/T|<moldict …>    -> the from_arrays arguments | `err <kind>`
   construct|<name>|<version>|<dflt>|<fg>|<default masses>|<kwargs moldict (19)>|<molrec (20)>
                               `Molecule(**kwargs)` with the record `from_schema` returned as the value of the
@@ -331,6 +338,47 @@ def fromSchemaOp (nm ver tag : String) (rest : List String) : String :=
     | none => "bad-op"
   | _, _, _ => "bad-op"
 
+/-! ### the source-derived voice (Model/MolSchemaAst.lean at Gen/MolSchemaSrc.lean) -/
+
+def showSErr : Src.SErr → String
+  | .err e => showErr e
+  | .stuck => "src-stuck"
+
+def srcToSchemaOp (v dflt fgv np cp : String) (rest : List String) : String :=
+  if !QcelVerif.MolSchema.Gen.translationOk then "src-untranslated" else
+  match parseInt? v, parseRat? dflt, strP fgv, boolP np, boolP cp, parseMolrec rest with
+  | some dt, some d, some fgs, some npOut, some copy, some r =>
+    let E : Src.Env Rat := { conv := fun _ _ => d, fg := fun _ => fgs, units := "Bohr", npOut := npOut, copy := copy }
+    match Src.evalToSchema QcelVerif.MolSchema.Gen.toSchemaFn E dt (Src.recDict (.opaque 0) r) with
+    | .error e => showSErr e
+    | .ok (o, caller) =>
+      let sd := Src.decode o
+      let (tag, md) := match sd.molecule with
+        | some m => ("M", m)
+        | none => ("T", sd.top)
+      let cg := match caller with
+        | .nums l => showList showRat l
+        | _ => "?"
+      s!"{showOpt encodeStr sd.schemaName}|{showOpt toString sd.schemaVersion}|{tag}|{showMolDict md}|{cg}"
+  | _, _, _, _, _, _ => "bad-op"
+
+def srcFromSchemaOp (nm ver tag : String) (rest : List String) : String :=
+  if !QcelVerif.MolSchema.Gen.translationOk then "src-untranslated" else
+  match optOf strP nm, optOf parseInt? ver, parseMolDict rest with
+  | some n, some v, some md =>
+    let sd : Option (SchemaDict Rat) :=
+      if tag == "M" then some { schemaName := n, schemaVersion := v, molecule := some md, top := emptyDict }
+      else if tag == "T" then some { schemaName := n, schemaVersion := v, molecule := none, top := md }
+      else if tag == "0" then some { schemaName := n, schemaVersion := v, molecule := none, top := emptyDict }
+      else none
+    match sd with
+    | some d =>
+      (match Src.evalFromSchema QcelVerif.MolSchema.Gen.fromSchemaFn (Src.encode d) with
+       | .ok a => "ok " ++ showArgs a
+       | .error e => showSErr e)
+    | none => "bad-op"
+  | _, _, _ => "bad-op"
+
 /-! ### Molecule.__init__ / dict() around the schema functions (part c) -/
 
 open QcelVerif.MolDict in
@@ -372,6 +420,8 @@ def step (line : String) : String :=
   | ["pat", p, s] => (match strP p, strP s with | some p, some s => tf (matchPat p s) | _, _ => "bad-op")
   | "toschema" :: v :: d :: fgv :: rest => toSchemaOp v d fgv rest
   | "fromschema" :: nm :: ver :: tag :: rest => fromSchemaOp nm ver tag rest
+  | "srctoschema" :: v :: d :: fgv :: np :: cp :: rest => srcToSchemaOp v d fgv np cp rest
+  | "srcfromschema" :: nm :: ver :: tag :: rest => srcFromSchemaOp nm ver tag rest
   | "construct" :: nm :: ver :: d :: fgv :: dms :: rest => constructOp nm ver d fgv dms rest
   | _ => "bad-op"
 
